@@ -46,6 +46,16 @@ class Rec:
         self.crash_at = crash_at
         self.max_segments = max_segments
         self.synced_log = []
+        self.sync_req = []       # (op id, segment index, answer) of every SyncPolicy.should_sync call
+
+
+def sync_done_ops(rec):
+    """ids of the writes whose WAL sync was seen to complete: the sync policy answered "sync now" inside one of the
+    operation's segments and the operation executed a further segment (the code after the sync-latency yield)"""
+    last = {}
+    for i, opid in enumerate(rec.sched):
+        last[opid] = i
+    return {opid for opid, i, ans in rec.sync_req if ans and last.get(opid, -1) > i}
 
 
 def traced(rec, opid, gen, entry):
@@ -77,17 +87,30 @@ def make_strategy(spec):
 def make_policy(spec, rec):
     from happysimulator.components.storage.wal import SyncEveryWrite, SyncOnBatch, SyncPeriodic
 
-    if spec[0] == "every":
-        return SyncEveryWrite()
-    if spec[0] == "batch":
-        return SyncOnBatch(spec[1])
+    def note(r):
+        # the policy is consulted from inside WriteAheadLog.append, i.e. inside a segment of the write that is
+        # advancing right now (the last schedule entry)
+        rec.sync_req.append((rec.sched[-1] if rec.sched else -1, len(rec.sched) - 1, bool(r)))
+        return r
+
+    class RecEvery(SyncEveryWrite):
+        def should_sync(self, w, t):
+            return note(super().should_sync(w, t))
+
+    class RecBatch(SyncOnBatch):
+        def should_sync(self, w, t):
+            return note(super().should_sync(w, t))
 
     class RecPeriodic(SyncPeriodic):
         def should_sync(self, w, t):
             r = super().should_sync(w, t)
             rec.oracle.append(1 if r else 0)
-            return r
+            return note(r)
 
+    if spec[0] == "every":
+        return RecEvery()
+    if spec[0] == "batch":
+        return RecBatch(spec[1])
     return RecPeriodic(spec[1] * 1e-6)
 
 
